@@ -17,6 +17,24 @@ use rustc_middle::mir::{
 use rustc_middle::ty::{self, Instance, Ty, TyCtxt, TypingEnv};
 use std::fmt::Write;
 
+thread_local! { static SEEN_ENUMS: std::cell::RefCell<Vec<DefId>> = std::cell::RefCell::new(Vec::new()); }
+
+fn note_enum<'tcx>(t: Ty<'tcx>) {
+    let mut t = t;
+    loop {
+        match t.kind() {
+            ty::Ref(_, inner, _) => { t = *inner; }
+            ty::Adt(d, _) => {
+                if d.is_enum() && !d.did().is_local() {
+                    SEEN_ENUMS.with(|s| { let mut s = s.borrow_mut(); if !s.contains(&d.did()) { s.push(d.did()); } });
+                }
+                return;
+            }
+            _ => return,
+        }
+    }
+}
+
 fn esc(s: &str) -> String {
     let mut o = String::with_capacity(s.len() + 2);
     o.push('"');
@@ -237,6 +255,7 @@ fn body_json<'tcx>(tcx: TyCtxt<'tcx>, did: DefId, kind: DefKind) -> String {
     }
     for (i, (l, d)) in body.local_decls.iter_enumerated().enumerate() {
         if i > 0 { s.push(','); }
+        note_enum(d.ty);
         let _ = write!(s, "{{\"i\":{},\"ty\":{},\"head\":{},\"name\":{}}}", l.as_u32(), esc(&d.ty.to_string()), esc(&ty_head(tcx, d.ty)), match &names[i] { Some(n) => esc(n), None => "null".into() });
     }
     s.push_str("],\"upvar_names\":[");
@@ -344,6 +363,34 @@ impl rustc_driver::Callbacks for Cb {
                 let methods: Vec<String> = tcx.associated_items(did).in_definition_order().filter(|a| a.is_fn()).map(|a| esc(&tcx.def_path_str(a.def_id))).collect();
                 let _ = write!(out, "{{\"self_ty\":{},\"self_head\":{},\"trait\":{},\"derived\":{},\"methods\":[{}]}}", esc(&self_ty.to_string()), esc(&ty_head(tcx, self_ty)), match tr { Some(t) => esc(&t), None => "null".into() }, tcx.is_automatically_derived(did), methods.join(","));
             }
+        }
+        out.push_str("],\"adts\":[");
+        let mut first = true;
+        for id in tcx.hir_free_items() {
+            let did = id.owner_id.to_def_id();
+            if matches!(tcx.def_kind(did), DefKind::Struct | DefKind::Enum) {
+                if !first { out.push(','); }
+                first = false;
+                let adt = tcx.adt_def(did);
+                let discrs: Vec<String> = if adt.is_enum() { adt.discriminants(tcx).map(|(_, d)| d.val.to_string()).collect() } else { vec!["0".to_string()] };
+                let vs: Vec<String> = adt.variants().iter().zip(discrs.iter()).map(|(v, dv)| {
+                    let fs: Vec<String> = v.fields.iter().map(|f| format!("{{\"name\":{},\"ty\":{}}}", esc(&f.name.to_string()), esc(&tcx.type_of(f.did).instantiate_identity().skip_normalization().to_string()))).collect();
+                    format!("{{\"name\":{},\"discr\":{},\"fields\":[{}]}}", esc(&v.name.to_string()), esc(dv), fs.join(","))
+                }).collect();
+                let _ = write!(out, "{{\"path\":{},\"enum\":{},\"variants\":[{}]}}", esc(&tcx.def_path_str(did)), adt.is_enum(), vs.join(","));
+            }
+        }
+        let seen: Vec<DefId> = SEEN_ENUMS.with(|s| s.borrow().clone());
+        for did in seen {
+            let adt = tcx.adt_def(did);
+            let discrs: Vec<String> = adt.discriminants(tcx).map(|(_, d)| d.val.to_string()).collect();
+            let vs: Vec<String> = adt.variants().iter().zip(discrs.iter()).map(|(v, dv)| {
+                let fs: Vec<String> = v.fields.iter().map(|f| format!("{{\"name\":{},\"ty\":\"\"}}", esc(&f.name.to_string()))).collect();
+                format!("{{\"name\":{},\"discr\":{},\"fields\":[{}]}}", esc(&v.name.to_string()), esc(dv), fs.join(","))
+            }).collect();
+            if !first { out.push(','); }
+            first = false;
+            let _ = write!(out, "{{\"path\":{},\"enum\":true,\"ext\":true,\"variants\":[{}]}}", esc(&tcx.def_path_str(did)), vs.join(","));
         }
         out.push_str("],\"opts\":{");
         let _ = write!(out, "\"debug_assertions\":{},\"overflow_checks\":{},\"panic\":{}", tcx.sess.opts.debug_assertions, tcx.sess.overflow_checks(), esc(&format!("{:?}", tcx.sess.panic_strategy())));
